@@ -47,8 +47,10 @@ def sequence(kind, n, rng):
     raise ValueError(kind)
 
 
-def channels(ctx, fmt, n, seed, sw, other_bits, start_ms=None, third_const=None, want_reader=False):
+def channels(ctx, fmt, n, seed, sw, other_bits, start_ms=None, third_const=None, want_reader=False, flagged=None):
     pb = filegen.PassBuilder(ctx, fmt, n, random.Random(repr((seed, fmt, n))), start_ms=start_ms)
+    if flagged is not None:
+        pb.quality[np.asarray(flagged, dtype=bool)] = 1 << 28       # insufficient calibration data: the line is blanked
     pb.samples[:, 2::5] = pb.nprng.integers(60, 1000, size=pb.samples[:, 2::5].shape)
     if third_const is not None:
         pb.samples[:, 2::5] = third_const       # every third sample of the pass carries one (extreme but valid) value
@@ -89,7 +91,11 @@ def check_klm(ctx, fmt, n, kind, seed, drv, start_ms=None):
     rng = random.Random(repr((seed, fmt, n, kind)))
     sw = sequence(kind, n, rng)
     other = np.array([rng.getrandbits(14) for _ in range(n)])
-    ch, pb = channels(ctx, fmt, n, seed, sw, other, start_ms)
+    # every other pass carries one flagged (blanked) line: the 3a / 3b blanking of the OTHER lines must not depend on it
+    flagged = np.zeros(n, dtype=bool)
+    if seed % 2 == 1 and n > 3 and start_ms is None:      # (inside a scan-motor interval a blanked line changes its neighbours' 3x3 statistics)
+        flagged[rng.randrange(n)] = True
+    ch, pb = channels(ctx, fmt, n, seed, sw, other, start_ms, flagged=flagged)
     ref_a, _ = channels(ctx, fmt, n, seed, np.ones(n, dtype=int), other, start_ms)
     ref_b, _ = channels(ctx, fmt, n, seed, np.zeros(n, dtype=int), other, start_ms)
     payload = {"fmt": fmt, "n": n, "kind": kind, "seed": seed, "select": sw.tolist(), "start_ms": start_ms}
@@ -100,8 +106,8 @@ def check_klm(ctx, fmt, n, kind, seed, drv, start_ms=None):
     for l in range(n):
         a, b = ch[l, :, 2], ch[l, :, 3]
         s = int(sw[l])
-        exp_a = ref_a[l, :, 2] if s == 1 else np.full_like(a, np.nan)
-        exp_b = ref_b[l, :, 3] if s == 0 else np.full_like(b, np.nan)
+        exp_a = ref_a[l, :, 2] if (s == 1 and not flagged[l]) else np.full_like(a, np.nan)
+        exp_b = ref_b[l, :, 3] if (s == 0 and not flagged[l]) else np.full_like(b, np.nan)
         if not np.array_equal(a, exp_a, equal_nan=True):
             kind_ = "3a delivered on a line whose select value is %d" % s if s != 1 else "3a is not the calibration of the third sample"
             ctx.violation("%s %s line %d: %s (value %s, count %d)" % (fmt, kind, l, kind_, a[np.isfinite(a)][:1] if s != 1 else a[:1], third[l, 0]),
@@ -111,12 +117,15 @@ def check_klm(ctx, fmt, n, kind, seed, drv, start_ms=None):
             ctx.violation("%s %s line %d: %s (value %s, count %d)" % (fmt, kind, l, kind_, b[np.isfinite(b)][:1] if s != 0 else b[:1], third[l, 0]),
                           dict(payload, line=l), cls="3b:select%d" % s)
         for slot in (0, 1, 4, 5):
+            if flagged[l]:
+                continue
             if not np.array_equal(ch[l, :, slot], ref_a[l, :, slot], equal_nan=True):
                 ctx.violation("%s %s line %d: channel slot %d depends on the channel-select sequence" % (fmt, kind, l, slot),
                               dict(payload, line=l), cls="other-slot:%d" % slot)
         p = 0
-        drv.append(("c14 %d %d" % (s, int(third[l, p])),
-                    (fmt, kind, l, s, float(a[p]), float(b[p]), float(ref_a[l, p, 2]), float(ref_b[l, p, 3]))))
+        if not flagged[l]:
+            drv.append(("c14 %d %d" % (s, int(third[l, p])),
+                        (fmt, kind, l, s, float(a[p]), float(b[p]), float(ref_a[l, p, 2]), float(ref_b[l, p, 3]))))
         ctx.case((fmt, kind, seed, l), nontrivial=(s == 2 or l == 0 or s != int(sw[l - 1])), branch="select%d" % s)
     ctx.sample({"fmt": fmt, "kind": kind, "n": n, "select": sw[:12].tolist()})
 
